@@ -16,6 +16,7 @@ package http
 import (
 	"bytes"
 	"context"
+	"io"
 	"io/ioutil"
 	"math/rand"
 	"net"
@@ -138,7 +139,8 @@ func (h *Handler) ServeHTTP(response http.ResponseWriter, request *http.Request)
 			return
 		}
 	}
-	data, err := readAll(request.Body, request.ContentLength)
+	// ContentLength is -1 for a chunked body: never read more than the limit allows
+	data, err := readAll(io.LimitReader(request.Body, int64(h.Service.MaxRequestLength)+1), request.ContentLength)
 	if err != nil {
 		// a body that ends before Content-Length bytes must not reach the service
 		h.onError(response, request, err)
@@ -148,6 +150,10 @@ func (h *Handler) ServeHTTP(response http.ResponseWriter, request *http.Request)
 	}
 	if err = request.Body.Close(); err != nil {
 		h.onError(response, request, err)
+	}
+	if len(data) > h.Service.MaxRequestLength {
+		response.WriteHeader(http.StatusRequestEntityTooLarge)
+		return
 	}
 	serviceContext := h.getServiceContext(response, request)
 	ctx := core.WithContext(request.Context(), serviceContext)
